@@ -10,6 +10,15 @@ for l in open('/verif/properties.jsonl'):
 else:
     sys.exit('no such property')
 wt = f'/tmp/wt/{pid}'
+try:
+    r1 = json.load(open('/tmp/wt/round1.json'))
+except Exception:
+    r1 = {}
+prior = [v for k, v in sorted(r1.items()) if k.startswith(pid + '-')]
+prior_txt = ""
+if prior:
+    prior_txt = "\n\nALREADY DONE by someone else (do NOT repeat these or close variants of them; pick other functions / other clauses of the property):\n" + "\n".join("  - a change in " + p for p in prior) + "\n"
+
 print(f"""You are helping to evaluate a verification effort for the Go repository buildbarn/bb-remote-execution (Buildbarn remote-execution scheduler, worker, runner, virtual file system). You have your own scratch git worktree of it at {wt} (work ONLY there and in a scratch directory {wt}-demo; never touch /repo or /verif, and do not read anything under /verif).
 
 The property the code is supposed to satisfy:
@@ -19,6 +28,7 @@ The property the code is supposed to satisfy:
   Quantified: {p['quantifier']['text']}
   Source files involved: {', '.join(p['anchors']['files'])}
 
+{prior_txt}
 YOUR TASK: produce TWO independent, different, realistic changes (bugs) to the repository's non-test Go source, each of which BREAKS the property above while the repository still compiles (`go build ./pkg/... ./cmd/...` as far as it compiled before) and the currently passing tests still pass. Each change should look like a plausible mistake or over-eager "simplification"/refactoring a developer could make (1-15 changed lines, in the non-test source files), and should NOT be exposed immediately by ordinary use: it should need something specific to manifest - a particular interleaving, a fault/crash/error at a particular point, a multi-step sequence of operations, an unusual input, or two cooperating sites that each look fine alone. Make the two changes different in kind and in different functions (ideally touching different clauses of the property). Do not add comments that point out the bug.
 
 For each change also write a demonstration: a Go test (or small program) that FAILS with the change applied and PASSES on the unchanged worktree. NOTE: most of the repository's own *_test.go files do not compile in this sandbox (generated mocks are missing), so put the demonstration in a separate throw-away Go module that imports the repository's packages through their exported API, using hand-written fakes instead of mocks. Recipe (offline sandbox, no network):
